@@ -140,11 +140,24 @@ class _BaseCtx:
         self.covered: Counter = Counter()
         self.ops = 0
         self.trace: list = []
+        self.preset: dict = {}
+        self.env: dict = {}
+
+    def constrain(self, exprs: Any) -> None:
+        """Partition predicates: python expressions over the named inputs."""
+        for e in exprs or ():
+            self.assume(eval(e, {'__builtins__': {}}, self.env))
 
     def cover(self, key: str) -> None:
         self.covered[key] += 1
 
     def fail(self, kind: str, detail: Any = '') -> None:
+        if callable(detail):
+            try:
+                detail = str(detail())
+            except Exception as e:  # noqa
+                reraise_control(e)
+                detail = '<unprintable>'
         raise Viol(kind, _safe_str(detail))
 
     def known(self, fid: str) -> None:
@@ -184,13 +197,22 @@ class SymCtx(_BaseCtx):
             return v
 
     def int(self, name: str, lo: int, hi: int) -> Any:
+        if name in self.preset:
+            self.env[name] = self.preset[name]
+            return self.preset[name]
         v = self._new(int, name)
         with NoTracing():
             self.space.add(z3.And(v.var >= lo, v.var <= hi))
+        self.env[name] = v
         return v
 
     def bool(self, name: str) -> Any:
-        return self._new(bool, name)
+        if name in self.preset:
+            self.env[name] = self.preset[name]
+            return self.preset[name]
+        v = self._new(bool, name)
+        self.env[name] = v
+        return v
 
     def choice(self, name: str, n: int) -> int:
         """A concrete value in range(n), one path per feasible value."""
@@ -255,13 +277,16 @@ class ConcreteCtx(_BaseCtx):
         return v
 
     def int(self, name: str, lo: int, hi: int) -> int:
-        v = self._get(name, lo)
+        v = self.preset[name] if name in self.preset else self._get(name, lo)
         if not lo <= v <= hi:
             raise MissingValue(f'{name}={v} outside [{lo},{hi}]')
+        self.env[name] = v
         return v
 
     def bool(self, name: str) -> bool:
-        return bool(self._get(name, False))
+        v = self.preset[name] if name in self.preset else bool(self._get(name, False))
+        self.env[name] = v
+        return v
 
     def choice(self, name: str, n: int) -> int:
         if n <= 1:
@@ -295,6 +320,8 @@ def explore(
     t0 = time.process_time()
     w0 = time.time()
     deadline = t0 + budget_s
+    params = dict(params)
+    preset = params.pop('_preset', {})
     root = RootNode()
     stats: Counter = Counter()
     covered: Counter = Counter()
@@ -323,6 +350,7 @@ def explore(
             try:
                 with StateSpaceContext(space), COMPOSITE_TRACER, NoTracing():
                     ctx = SymCtx(space)
+                    ctx.preset = preset
                     try:
                         with ResumedTracing():
                             harness(ctx, **params)
@@ -406,7 +434,9 @@ def run_native(harness: Callable[..., None], params: dict[str, Any],
                values: dict[str, Any]) -> dict[str, Any]:
     """Replay natively (no tracer, no solver)."""
     assert not is_tracing()
+    params = dict(params)
     ctx = ConcreteCtx(values)
+    ctx.preset = params.pop('_preset', {})
     out: dict[str, Any] = {'values': values}
     try:
         harness(ctx, **params)
